@@ -199,8 +199,10 @@ def gen_cases(ctx: Ctx) -> List[Dict[str, Any]]:
 
 
 def run(ctx: Ctx):
-    gen.regenerate(ctx, ["Cadence"])
+    gen.regenerate(ctx, ["Cadence", "ResumeIdx"])
     leanproj.check_theorems(ctx, MODULE, THEOREMS)
+    from .registry import THEOREMS_RESUMETIE
+    leanproj.check_theorems(ctx, "PyseqmVerif.Properties.ResumeTie", THEOREMS_RESUMETIE)
     from .registry import THEOREMS_C10B
     leanproj.check_theorems(ctx, "PyseqmVerif.Properties.C10b", THEOREMS_C10B)
     cases = gen_cases(ctx)
